@@ -364,6 +364,10 @@ func c11World(cf c11cfg) (*appx.World, appx.Genesis, []appx.Op) {
 		{Members: members, Threshold: uint64(cf.N + 1), IndexPlus: 1, Act: 5},
 		// equal to candidate 0 except for the threshold (votes for it must not be pooled with candidate 0's)
 		{Members: members, Threshold: uint64(cf.T%cf.N + 1), IndexPlus: 1, Act: 0},
+		// candidate 1 two indices ahead: voted for while another configuration is
+		// being accepted it stays admissible afterwards, and is then the same
+		// configuration as candidate 1 (votes from the earlier round must be gone)
+		{Members: rot, Threshold: uint64(minInt(2, cf.N)), IndexPlus: 2, Act: 5},
 	}, SeenBlocks: []uint64{5, 3}}
 	g := appx.Genesis{Members: members, Threshold: uint64(cf.T)}
 	var ops []appx.Op
